@@ -25,6 +25,7 @@ type Profile struct {
 	FaultPct   int     // share of txs with a tx-level fault
 	NodeFaults bool
 	Queries    int // query-noise items per block (upper bound)
+	Noise      int // calls on the non-consensus ABCI surfaces of the reference per block (upper bound)
 	Export     bool
 }
 
@@ -38,10 +39,12 @@ func profileFor(prop string, tier string) *Profile {
 	if tier == "thorough" {
 		p.MaxBlocks = 120
 	}
+	p.Noise = 2
 	switch prop {
 	case "C01":
 		p.Replicas, p.NodeFaults = 2, true
 		p.FaultPct = 15
+		p.Noise = 4
 	case "C02":
 		p.W["ent"], p.W["gov"], p.W["stake"] = 25, 5, 3
 	case "C03":
@@ -90,6 +93,7 @@ func profileFor(prop string, tier string) *Profile {
 		p.Queries = 4
 		p.MaxTx = 10
 		p.Replicas = 1
+		p.Noise = 3
 	}
 	return p
 }
@@ -214,8 +218,10 @@ func NewRun(prop string, seed int64, tier string) (*Trace, *Gen) {
 		if g.pct(30) {
 			cfg.MinGasPrices = "0.001nund"
 		}
+		cfg.Mempool = g.pct(50)
 		k.Nodes = append(k.Nodes, cfg)
 	}
+	k.RefMempool = g.pct(40)
 	t.Knobs = k
 	g.total = p.MinBlocks + r.Intn(p.MaxBlocks-p.MinBlocks+1)
 	g.tail = 5
@@ -295,6 +301,7 @@ func (g *Gen) NextBlock(w *World, bi int) (BlockSpec, bool) {
 			if g.pct(15) {
 				ev.JumpS = pick(g.R, []int64{1, 3600, 86400 * 365 * 10})
 			}
+			ev.Proposal = pick(g.R, []string{"", "", "process", "process", "prepare"})
 			if inTail {
 				if g.down[n] {
 					ev.Kind = "restart"
@@ -319,6 +326,11 @@ func (g *Gen) NextBlock(w *World, bi int) (BlockSpec, bool) {
 	for i := 0; i < g.P.Queries; i++ {
 		if g.pct(60) {
 			b.Queries = append(b.Queries, g.genQuery(w, len(b.Txs)))
+		}
+	}
+	for i := 0; i < g.P.Noise; i++ {
+		if g.pct(50) {
+			b.Noise = append(b.Noise, g.genNoise(len(b.Txs)))
 		}
 	}
 	if g.P.Export && !inTail && bi > 3 && g.pct(12) {
@@ -1217,4 +1229,17 @@ func (g *Gen) genQuery(w *World, ntx int) QuerySpec {
 		q.MidTx = g.R.Intn(ntx + 1)
 	}
 	return q
+}
+
+// genNoise draws one call on a non-consensus ABCI surface of the reference node.
+func (g *Gen) genNoise(ntx int) NoiseSpec {
+	kind := pick(g.R, []string{"simulate", "simulate", "simulate", "simulate", "simulate", "simulate", "recheck", "recheck", "recheck", "prepare", "prepare", "process", "process", "process", "info", "store", "store", "hist", "hist"})
+	ns := NoiseSpec{Kind: kind, Tx: g.R.Intn(8), N: uint64(g.R.Intn(1000))}
+	switch kind {
+	case "prepare", "process":
+		ns.Pos = -2
+	default:
+		ns.Pos = pick(g.R, []int{-3, -2, -1, g.R.Intn(ntx + 1), g.R.Intn(ntx + 1), g.R.Intn(ntx + 1)})
+	}
+	return ns
 }
